@@ -144,6 +144,9 @@ func newBinaryEncoder() encoding2.EncodeCompiler[any, Value] {
 			return nil, errors.WithStack(encoding2.ErrUnsupportedType)
 		} else if typ.ConvertibleTo(typeBinaryMarshaler) {
 			return encoding2.EncodeFunc(func(source any) (Value, error) {
+				if v := reflect.ValueOf(source); v.Kind() == reflect.Pointer && v.IsNil() {
+					return nil, nil
+				}
 				s := source.(encoding.BinaryMarshaler)
 				if t, err := s.MarshalBinary(); err != nil {
 					return nil, errors.Wrap(encoding2.ErrUnsupportedValue, err.Error())
